@@ -2,9 +2,10 @@
 import copy, json, os, shutil, glob, random
 from vlib import coq, coqlit as L, proj, core
 from props.ids_common import *
+from props import ids_classes
 from concurrent.futures import ThreadPoolExecutor
 
-PROPERTY_FILES = ["Ids/Properties_C03.v"]
+PROPERTY_FILES = ["Ids/Properties_C03.v"] + ids_classes.PROPERTY_FILES_EXTRA
 
 
 def ids_of(dumped):
@@ -173,6 +174,9 @@ def run(ctx):
                 "a case is one (project, configuration) pair; non-trivial when the project has >= 3 valid steps")
     ctx.assumptions += ["Build-Ids are computed by the real StepIR.getDigestCoro with synthetic source hashes and fingerprints",
                         "SHA-1 abstract in theorems, executable instance in Common/Sha1.v"]
+    # class resolution (Recipe.__resolveClassesOrder / resolveClasses): Coq model Ids/Classes.v vs the real RecipeSet,
+    # and the direct oracles "resolved recipes do not depend on read order / unrelated recipes; class objects stay unchanged"
+    ids_classes.run_classes(ctx)
     golden(ctx)
     n_proj = ctx.n(10, 150)
     jobs = []
